@@ -93,7 +93,10 @@ def run(ctx):
                 eps.append(sorted(rng.sample(cand, 2)))
             for ep in eps:
                 d2 = dict(det, endpoints=ep)
-                m, e = call(tx.sensitization_transform, build(spec), n, list(ep) if ep else None)
+                carg = build(spec)
+                ep_arg = (ep[0] if (ep and len(ep) == 1 and len(n) % 2 == 0) else (list(ep) if ep else None))  # str and list forms
+                m, e = call(tx.sensitization_transform, carg, n, ep_arg)
+                ctx.unchanged("sensitization_transform", carg, spec)
                 if e is not None and name_clash(A, e):
                     ctx.rejected("documented rejection: name overlap with the miter's own node names")
                     continue
@@ -138,7 +141,9 @@ def run(ctx):
                             good = any(v0[o] != v1[o] for o in outs)
                         ctx.side("sensitize-witness", good, "sensitize:bad-witness", f"sensitize({n!r}) returned {r!r} which does not sensitize the node", d2)
             # ------------------------------------------------------- sensitivity_transform
-            sen, e = call(tx.sensitivity_transform, build(spec), n)
+            carg = build(spec)
+            sen, e = call(tx.sensitivity_transform, carg, n)
+            ctx.unchanged("sensitivity_transform", carg, spec)
             if e is not None:
                 ctx.side("sensitivity_transform-raises", False, f"sensitivity_transform:raises:{type(e).__name__}", f"sensitivity_transform({n!r}) raised {e!r}", det)
                 continue
